@@ -2,7 +2,6 @@ package schist
 
 
 
-func govOps() []OpDef      { return nil }
 
 func ledgerMonitors() []Monitor {
 	return []Monitor{
@@ -14,6 +13,7 @@ func ledgerMonitors() []Monitor {
 		{"C11", "stake", monC11},
 		{"C21", "multisig", monC21},
 		{"C07", "cache", monC07},
+		{"C48", "governance", monC48},
 	}
 }
 
